@@ -24,6 +24,8 @@ from traits.api import (HasTraits, Int, Str, Float, List, Dict, Set, Instance, P
                         Map, Range, Tuple, DelegatesTo, PrototypedFrom, Python, Disallow, Either, Callable, Bool, TraitError,
                         observe, cached_property, on_trait_change)
 
+from traits.constants import ComparisonMode
+
 LEVEL = "model_checking"
 ENCODED = [("traits/ctraits.c", ["_trait_getstate", "_trait_setstate", "func_index", "get_value"]),
            ("traits/has_traits.py", ["HasTraits.__getstate__", "HasTraits.__setstate__", "HasTraits.clone_traits",
@@ -74,6 +76,9 @@ class Cat(HasTraits):
     p2 = Property(observe="i")
     p3 = Property(Str, observe="i")
     tr = Int(transient=True)
+    cmi = Any(comparison_mode=ComparisonMode.identity)
+    cmn = Int(comparison_mode=ComparisonMode.none)
+    cme = Float(comparison_mode=ComparisonMode.equality)
 
     def _get_p0(self):
         return 1
@@ -99,7 +104,7 @@ class Cat(HasTraits):
 
 
 KINDS = ["i", "s", "f", "l", "d", "st", "inst", "a", "ro", "k", "ev", "en", "mp", "rg", "rgi", "tp", "ei", "cb", "py", "dg",
-         "pf", "p0", "p1", "p2", "p3", "tr", "l_items", "trait_added"]
+         "pf", "p0", "p1", "p2", "p3", "tr", "l_items", "trait_added", "cmi", "cmn", "cme"]
 FIELDS = ["getattr", "setattr", "post_setattr", "validate", "delegate_attr_name"]
 
 
@@ -150,6 +155,10 @@ def roundtrip_harness(name):
                 for idx, f in zip((0, 1, 2, 4, 11), FIELDS):
                     ex.check(s1[idx] == s2[idx], "round trip restores trait->%s" % f)
                 ex.check(s1[8] == s2[8] and s1[6] == s2[6], "round trip restores flags and default value type")
+                ex.check(ct.comparison_mode == ct2.comparison_mode and ct.is_property == ct2.is_property
+                         and ct.modify_delegate == ct2.modify_delegate and ct.setattr_original_value == ct2.setattr_original_value
+                         and ct.post_setattr_original_value == ct2.post_setattr_original_value and ct.is_mapped == ct2.is_mapped,
+                         "the copied definition has the same comparison mode and definition flags")
                 for probe in (5, "a", 0.5, None, [1], (1, "z")):
                     def run(c):
                         try:
@@ -175,6 +184,7 @@ class Node(HasTraits):
     tags = Set(Str)
     grid = List(List(Int))
     sel = Instance("Node")
+    group = Set(Instance("Node"))
     once = ReadOnly
     scratch = Int(transient=True)
     total = Property(Int, observe="items.items")
@@ -218,8 +228,9 @@ class Node(HasTraits):
     tmp = Int(transient=True)
 
 
-COPIERS = ["pickle2", "pickle3", "pickle4", "pickle5", "deepcopy", "clone", "copy_traits_deep", "copy_traits_shallow"]
-BUILD_OPS = ["none", "value", "rename", "items", "kids", "table", "tags", "grid", "once", "scratch", "sel_alias", "kid_value"]
+COPIERS = ["pickle0", "pickle1", "pickle2", "pickle3", "pickle4", "pickle5", "deepcopy", "clone", "copy_traits_deep", "copy_traits_shallow"]
+BUILD_OPS = ["none", "value", "rename", "items", "kids", "table", "tags", "grid", "once", "scratch", "sel_alias", "kid_value",
+             "read_once", "group_alias"]
 
 
 def do_copy(how, n):
@@ -267,6 +278,12 @@ def history_harness(k):
             elif op == "kid_value":
                 if n.kids:
                     n.kids[0].value += 1
+            elif op == "read_once":
+                n.once                        # reading a write-once attribute is not writing it (it materialises <undefined>)
+            elif op == "group_alias":
+                if not n.kids:
+                    n.kids.append(Node(name="kidG"))
+                n.group.add(n.kids[-1])        # the same object reachable through a List trait and a Set trait
         how = COPIERS[ex.choice("copier", len(COPIERS))]
         deep = how != "copy_traits_shallow"
         problem = None
@@ -295,6 +312,24 @@ def history_harness(k):
             if n.sel is not None and how in ("deepcopy", "clone") or (n.sel is not None and how.startswith("pickle")):
                 ex.check(c.sel is not None and any(c.sel is kk for kk in c.kids),
                          "aliasing inside the copied graph is preserved (the selected node is the copy's own kid)")
+            if n.group and (how in ("deepcopy", "clone") or how.startswith("pickle")):
+                ex.check(len(c.group) == len(n.group) and all(any(g is kk for kk in c.kids) for g in c.group),
+                         "aliasing inside the copied graph is preserved (members of the Set are the copy's own kids)")
+        if not wrote and how not in ("copy_traits_deep", "copy_traits_shallow"):
+            from traits.api import Undefined
+            ex.check(c.once is Undefined, "a write-once attribute that was never written is still <undefined> on the copy")
+            try:
+                c.once = "first"
+                first_ok = True
+            except TraitError:
+                first_ok = False
+            ex.check(first_ok and c.once == "first", "... and still accepts its one write")
+            try:
+                c.once = "second"
+                second_ok = True
+            except TraitError:
+                second_ok = False
+            ex.check(not second_ok, "... and only one")
         if wrote and how not in ("copy_traits_deep", "copy_traits_shallow"):
             ex.check(c.once == "written", "write-once attribute stays written")
             try:
